@@ -108,6 +108,19 @@ theorem order_carbon_first (a : Int) (h : a ≠ 6) : elLt 6 a = true := by
 theorem order_by_number (a b : Int) (ha : a ≠ 6) (hb : b ≠ 6) : elLt a b = true ↔ a < b := by
   unfold elLt; grind
 
+/-- the derived comparison operators agree with the same order: `<=` is "not after", `>` is the converse of `<`, `>=` is "not before" -/
+theorem order_le_iff (a b : Int) : elLeT a b = true ↔ elLt b a = false := by
+  unfold elLeT elLt; grind
+theorem order_gt_iff (a b : Int) : elGtT a b = true ↔ elLt b a = true := by
+  unfold elGtT elLt; grind
+theorem order_ge_iff (a b : Int) : elGeT a b = true ↔ elLt a b = false := by
+  unfold elGeT; cases elLt a b <;> simp
+/-- exactly one of before / same / after -/
+theorem order_trichotomy (a b : Int) :
+    (elLt a b = true ∧ a ≠ b ∧ elGtT a b = false) ∨ (elLt a b = false ∧ a = b ∧ elGtT a b = false) ∨ (elLt a b = false ∧ a ≠ b ∧ elGtT a b = true) := by
+  unfold elGtT elLt; grind
+example : elGeT 6 6 = true ∧ elGeT 6 1 = false ∧ elGeT 1 6 = true ∧ elLeT 6 1 = true ∧ elGtT 8 7 = true := by decide
+
 /-! ### formulas, for EVERY list of atomic numbers -/
 /-- blocks come out strictly ordered (hence each distinct element exactly once, carbon first) -/
 theorem formula_sorted_distinct (zs : List Int) :
